@@ -140,12 +140,13 @@ NeighAll(cell, G) ==
 \* pair grid: if (cell2 == &cell) continue;   3-body grid: every cell is a neighbour of its own
 NeighPair(cell, G) == SelectSeq(NeighAll(cell, G), LAMBDA q : q # cell)
 
-\* per configuration: grid, cell of every bead, mi[i][j] = BCShortestConnection(pos_i, pos_j), exclusions
+\* per configuration: grid, cell of every bead (and that cell's neighbour list), mi[i][j] = BCShortestConnection(pos_i, pos_j), exclusions
 Ctx(c) ==
   LET n == Len(c.pos)
       G == Grid(c.B, c.rc2) IN
   [rc2 |-> c.rc2, G |-> G,
    cell |-> TLCEval([i \in 1..n |-> GetCell(c.pos[i], G)]),
+   nb |-> TLCEval([i \in 1..n |-> NeighAll(GetCell(c.pos[i], G), G)]),     \* cell_t::neighbours_ of the bead's cell
    mi |-> TLCEval([i \in 1..n |-> [j \in 1..n |-> AlgoMI(Sub(c.pos[j], c.pos[i]), c.B)]]),
    X |-> TLCEval(ExclRel(c.mol, c.ias))]
 
@@ -159,7 +160,7 @@ PHit(K, x, f, s) == N2(K.mi[f][s]) < K.rc2 /\ ~(x /\ {f, s} \in K.X)
    beads inserted so far, in insertion order.  A call is <<bead in the cell, tested bead>>; its
    connection vector is BCShortestConnection(pos[first], pos[second]) = mi[first][second].     *)
 GTestBead(K, x, bead, inserted) ==
-  LET cells == <<K.cell[bead]>> \o NeighPair(K.cell[bead], K.G)
+  LET cells == <<K.cell[bead]>> \o SelectSeq(K.nb[bead], LAMBDA q : q # K.cell[bead])   \* = NeighPair
   IN Flat([q \in 1..Len(cells) |->
         LET hits == SelectSeq(inserted, LAMBDA b : K.cell[b] = cells[q] /\ PHit(K, x, b, bead))
         IN [u \in 1..Len(hits) |-> <<hits[u], bead>>]])
@@ -198,7 +199,7 @@ Grid3(K, x, L1, L2, L3) ==
   IF L1 = <<>> \/ L2 = <<>> \/ L3 = <<>> THEN <<>> ELSE
   Flat([t \in 1..Len(L1) |->
     LET bead == L1[t]
-        cells == NeighAll(K.cell[bead], K.G)
+        cells == K.nb[bead]                                                           \* = NeighAll
         C2 == Flat([q \in 1..Len(cells) |-> SelectSeq(L2, LAMBDA b : K.cell[b] = cells[q])])
         C3 == Flat([q \in 1..Len(cells) |-> SelectSeq(L3, LAMBDA b : K.cell[b] = cells[q])])
     IN Flat([u \in 1..Len(C2) |->
